@@ -138,6 +138,60 @@ let pattern_op (op : string) (s : int -> z list) (n : int -> z) : string =
      | None -> "!fuel")
   | _ -> "?"
 
+(* ---- string.pack / string.unpack formats: the option list handed to the extracted drivers ----
+   (this reading of the format is glue of the harness, exercised against the real parser on every case;
+    native sizes of the LP64 platform; None = an option outside the modelled ones or a malformed format) *)
+let parse_opts (f : string) : popt list option =
+  let n = String.length f in
+  let pos = ref 0 in
+  let getnum () =
+    let st = !pos in
+    while !pos < n && f.[!pos] >= '0' && f.[!pos] <= '9' do incr pos done;
+    if !pos = st || !pos - st > 6 then None else Some (int_of_string (String.sub f st (!pos - st))) in
+  let numlimit def = match getnum () with None -> Some def | Some k -> if k >= 1 && k <= 16 then Some k else None in
+  let native c = match c with
+    | 'b' -> Some (1, true) | 'B' -> Some (1, false) | 'h' -> Some (2, true) | 'H' -> Some (2, false)
+    | 'l' -> Some (8, true) | 'L' -> Some (8, false) | 'j' -> Some (8, true) | 'J' -> Some (8, false)
+    | 'T' -> Some (8, false) | _ -> None in
+  let out = ref [] in
+  let ok = ref true in
+  let zi k = z_of_int k in
+  while !ok && !pos < n do
+    let c = f.[!pos] in
+    incr pos;
+    (match c with
+     | ' ' -> ()
+     | '<' | '=' -> out := OLittle true :: !out
+     | '>' -> out := OLittle false :: !out
+     | '!' -> (match numlimit 8 with Some k -> out := OMaxAlign (zi k) :: !out | None -> ok := false)
+     | 'x' -> out := OPad :: !out
+     | 'X' ->
+       if !pos >= n then ok := false
+       else begin
+         let c2 = f.[!pos] in
+         incr pos;
+         (match c2 with
+          | 's' -> (match numlimit 8 with Some k -> out := OAlign (zi k) :: !out | None -> ok := false)
+          | 'i' | 'I' -> (match numlimit 4 with Some k -> out := OAlign (zi k) :: !out | None -> ok := false)
+          | 'x' -> out := OAlign (zi 1) :: !out
+          | _ -> (match native c2 with Some (k, _) -> out := OAlign (zi k) :: !out | None -> ok := false))
+       end
+     | 'i' | 'I' -> (match numlimit 4 with Some k -> out := OInt (zi k, c = 'i') :: !out | None -> ok := false)
+     | 's' -> (match numlimit 8 with Some k -> out := OStrS (zi k) :: !out | None -> ok := false)
+     | 'z' -> out := OStrZ :: !out
+     | 'c' -> (match getnum () with Some k -> out := OStrC (zi k) :: !out | None -> ok := false)
+     | _ -> (match native c with Some (k, sg) -> out := OInt (zi k, sg) :: !out | None -> ok := false))
+  done;
+  if !ok then Some (List.rev !out) else None
+
+let string_of_bytes (l : z list) = String.concat "" (List.map (fun c -> String.make 1 (Char.chr (int_of_z c))) l)
+
+let unpack_formats : string list =
+  let base = List.concat_map (fun e -> List.concat_map (fun k -> [e ^ "i" ^ string_of_int k; e ^ "I" ^ string_of_int k])
+                                         (List.init 16 (fun i -> i + 1))) ["<"; ">"] in
+  base @ ["<b"; "<B"; "<h"; ">h"; "<H"; ">H"; "<l"; ">l"; "<j"; ">j"; "<J"; ">J"; "<T"; ">T";
+          "!4 <i1 i4"; "!8 >i1 i8"; "!2 <i1 i8"; "!<i1 i3"; "<i1 Xi4 i2"; "<s1"; ">s2"; "<s4"; "z"; "c3"; "<i2 x i2"]
+
 let () =
   iter_lines (fun line ->
     match split_ws line with
@@ -193,45 +247,29 @@ let () =
                    loop p (k + 1) false in
              loop Z0 0 true
            | "utf8codepoint" -> res dec_of_z (nl_utf8codepoint (s 0) (n 1) (int_of_z (n 2) = 0))
-           | "pack1" ->
-             (* modelled: [<>=]?[iI]<size> and the native integer options b B h H l L j J T (LP64 sizes) *)
-             let f = String.concat "" (List.map (fun c -> String.make 1 (Char.chr (int_of_z c))) (s 0)) in
-             let little, rest =
-               if String.length f > 0 && (f.[0] = '<' || f.[0] = '=') then true, String.sub f 1 (String.length f - 1)
-               else if String.length f > 0 && f.[0] = '>' then false, String.sub f 1 (String.length f - 1)
-               else true, f in
-             let native = [("b", (1, true)); ("B", (1, false)); ("h", (2, true)); ("H", (2, false)); ("l", (8, true)); ("L", (8, false));
-                           ("j", (8, true)); ("J", (8, false)); ("T", (8, false))] in
-             if List.mem_assoc rest native then begin
-               let (size, sg) = List.assoc rest native in
-               if sg then res hex (nl_pack_int (n 1) (z_of_int size) little) else res hex (nl_pack_uint (n 1) (z_of_int size) little)
-             end
-             else if String.length rest >= 2 && (rest.[0] = 'i' || rest.[0] = 'I')
-                && (String.for_all (fun c -> c >= '0' && c <= '9') (String.sub rest 1 (String.length rest - 1))) then begin
-               let size = int_of_string (String.sub rest 1 (String.length rest - 1)) in
-               if size < 1 || size > 16 then "?"
-               else if rest.[0] = 'i' then res hex (nl_pack_int (n 1) (z_of_int size) little)
-               else res hex (nl_pack_uint (n 1) (z_of_int size) little)
-             end else "?"
+           | "pack1" | "pack2" | "packs" ->
+             (match parse_opts (string_of_bytes (s 0)) with
+              | None -> "?"
+              | Some opts ->
+                let vals = List.map (fun t -> if t = "e" || (String.length t > 0 && t.[0] = 'x') then VStr (bytes_of_tok t) else VInt (z_of_dec t)) (List.tl args) in
+                (match nl_pack_opts opts vals true (z_of_int 1) [] with
+                 | Val (o, _) -> hex o
+                 | Trap -> "!trap" | Unsafe -> "!unsafe"))
            | "unpack" ->
-             (* format indexes 1..64 are  <i1 <I1 ... <i16 <I16 >i1 ... >I16 ; init = 1 only *)
              let k = int_of_z (n 0) in
-             if k < 1 || k > 64 || List.nth args 2 <> "1" then "?"
+             let data = s 1 in
+             let init = int_of_z (n 2) in
+             if k < 1 || k > List.length unpack_formats || init < 1 || init - 1 > List.length data then "?"
              else begin
-               let little = k <= 32 in
-               let j = (k - 1) mod 32 in
-               let size = j / 2 + 1 in
-               let signed = j mod 2 = 0 in
-               let data = s 1 in
-               if List.length data < size then "!trap"
-               else begin
-                 let rec take n l = if n = 0 then [] else match l with [] -> [] | x :: r -> x :: take (n - 1) r in
-                 match nl_unpack_int (take size data) (z_of_int size) little signed with
-                 | None -> "!trap"
-                 | Some v ->
-                   let shown = if signed then v else u64 v in
-                   dec_of_z shown ^ " " ^ string_of_int (size + 1)
-               end
+               let fmt = List.nth unpack_formats (k - 1) in
+               match parse_opts fmt with
+               | None -> "?"
+               | Some opts ->
+                 let unsigned = List.exists (fun c -> String.contains fmt c) ['I'; 'B'; 'H'; 'L'; 'J'; 'T'] in
+                 (match nl_unpack_opts opts data (z_of_int (init - 1)) true (z_of_int 1) with
+                  | Val (vs, e) ->
+                    String.concat " " (List.map (function VInt v -> dec_of_z (if unsigned then u64 v else v) | VStr b -> hex b) vs @ [dec_of_z e])
+                  | Trap -> "!trap" | Unsafe -> "!unsafe")
              end
            | "find" | "match" | "gmatch" | "gsub" | "gsub3" ->
              (* the extracted matcher backtracks like the real one but on unary/binary-coded integers:
